@@ -380,6 +380,7 @@ func cmdLock(args []string) int {
 		}
 		fmt.Printf("%s: %d locked, %d open\n", p, np, no)
 	}
+	c.writeLocalsLock()
 	if err := writeLock(lock); err != nil {
 		fmt.Fprintln(os.Stderr, err)
 		return 2
